@@ -1,0 +1,332 @@
+//! Verification hooks, compiled only with `--cfg actix_net_verif`.
+//!
+//! With interception switched on for the calling thread ([`set_in_thread`]), a `Server` future
+//! polled on that thread keeps its accept loop and its workers on the same thread: the real
+//! `Accept` is stored here and stepped one loop iteration at a time ([`accept_step`]), every
+//! worker is the real `ServerWorker` future on a `LocalSet` of its own that the caller polls by
+//! hand, and an [`Observer`] is told about the few operations on state that is shared between the
+//! accept thread, the workers and the server task. With interception off nothing here is reached.
+#![allow(missing_docs)]
+
+use std::{
+    cell::{Cell, RefCell},
+    io,
+    os::fd::{AsRawFd, RawFd},
+    rc::Rc,
+    time::Duration,
+};
+
+use tokio::task::LocalSet;
+
+use crate::{
+    accept::verif_accept::AcceptBox,
+    availability::Availability,
+    socket::{MioListener, MioStream},
+    worker::{Conn, ServerWorker},
+};
+
+/// Places between two operations on shared state at which another thread could run.
+#[derive(Debug, Clone, Copy, PartialEq, Eq)]
+pub enum Point {
+    /// accept thread: connection sent to worker `idx`, counter not yet incremented
+    AfterSend(usize),
+    /// worker `idx`: counter decremented across the limit, `WorkerAvailable` not yet queued
+    AfterDec(usize),
+    /// any thread: interest queued, accept poll not yet woken
+    AfterPush,
+}
+
+pub trait Observer {
+    fn point(&self, _point: Point) {}
+    /// about to send the accepted stream `fd` (listener token `token`) to worker `worker`
+    fn dispatch(&self, _worker: usize, _token: usize, _fd: RawFd) {}
+    /// the send failed, the stream is back with the accept loop
+    fn dispatch_failed(&self, _token: usize, _fd: RawFd) {}
+    /// tokens returned by one `mio::Poll::poll` of the accept loop (`usize::MAX` = waker)
+    fn poll_tokens(&self, _tokens: &[usize]) {}
+    /// worker `idx` is about to create its services on the current thread
+    fn worker_starting(&self, _idx: usize) {}
+    /// the server task is about to join the accept thread
+    fn accept_join(&self, _accept_exited: bool) {}
+}
+
+struct WorkerSlot {
+    idx: usize,
+    local: Option<LocalSet>,
+    shared: Rc<RefCell<Option<ServerWorker>>>,
+}
+
+thread_local! {
+    static IN_THREAD: Cell<bool> = const { Cell::new(false) };
+    static EXITED: Cell<bool> = const { Cell::new(false) };
+    static ACCEPT: RefCell<Option<AcceptBox>> = const { RefCell::new(None) };
+    static WORKERS: RefCell<Vec<WorkerSlot>> = const { RefCell::new(Vec::new()) };
+    static OBSERVER: RefCell<Option<Rc<dyn Observer>>> = const { RefCell::new(None) };
+    static INJECTED: RefCell<Vec<(RawFd, io::ErrorKind, Option<i32>)>> = const { RefCell::new(Vec::new()) };
+}
+
+/// Switches interception on or off for the calling thread and clears everything stored for it.
+pub fn set_in_thread(on: bool) {
+    IN_THREAD.with(|c| c.set(on));
+    EXITED.with(|c| c.set(false));
+    ACCEPT.with(|a| a.borrow_mut().take());
+    let old: Vec<WorkerSlot> = WORKERS.with(|w| std::mem::take(&mut *w.borrow_mut()));
+    drop(old);
+    INJECTED.with(|i| i.borrow_mut().clear());
+}
+
+pub fn in_thread() -> bool {
+    IN_THREAD.with(|c| c.get())
+}
+
+pub fn set_observer(observer: Option<Rc<dyn Observer>>) {
+    OBSERVER.with(|o| *o.borrow_mut() = observer);
+}
+
+fn observer() -> Option<Rc<dyn Observer>> {
+    OBSERVER.with(|o| o.borrow().clone())
+}
+
+// ---- hooks called from the crate ---------------------------------------------------------
+
+pub(crate) fn single_step() -> bool {
+    in_thread()
+}
+
+pub(crate) fn step_begin(timeout: &mut Option<Duration>) -> Option<Option<Duration>> {
+    if in_thread() {
+        let saved = *timeout;
+        *timeout = Some(Duration::ZERO);
+        Some(saved)
+    } else {
+        None
+    }
+}
+
+pub(crate) fn step_after_poll(
+    timeout: &mut Option<Duration>,
+    saved: Option<Option<Duration>>,
+    events: &mio::Events,
+) {
+    if let Some(saved) = saved {
+        *timeout = saved;
+        if let Some(obs) = observer() {
+            let tokens: Vec<usize> = events.iter().map(|e| usize::from(e.token())).collect();
+            obs.poll_tokens(&tokens);
+        }
+    }
+}
+
+pub(crate) fn note_accept_exit() {
+    EXITED.with(|c| c.set(true));
+}
+
+pub(crate) fn point(point: Point) {
+    if in_thread() {
+        if let Some(obs) = observer() {
+            obs.point(point);
+        }
+    }
+}
+
+fn stream_fd(io: &MioStream) -> RawFd {
+    match io {
+        MioStream::Tcp(s) => s.as_raw_fd(),
+        MioStream::Uds(s) => s.as_raw_fd(),
+    }
+}
+
+pub(crate) fn note_dispatch(worker: usize, conn: &Conn) {
+    if in_thread() {
+        if let Some(obs) = observer() {
+            obs.dispatch(worker, conn.token, stream_fd(&conn.io));
+        }
+    }
+}
+
+pub(crate) fn note_dispatch_failed(conn: &Conn) {
+    if in_thread() {
+        if let Some(obs) = observer() {
+            obs.dispatch_failed(conn.token, stream_fd(&conn.io));
+        }
+    }
+}
+
+pub(crate) fn note_worker_starting(idx: usize) {
+    if let Some(obs) = observer() {
+        obs.worker_starting(idx);
+    }
+}
+
+/// Guards the re-dispatch loop of `accept_one`: under interception a loop that does not end is
+/// turned into a panic the caller of [`accept_step`] can catch.
+pub(crate) fn accept_one_iteration(iterations: &mut usize, handles: usize) {
+    *iterations += 1;
+    if in_thread() && *iterations > 4 * handles + 8 {
+        panic!("verif: accept_one does not terminate ({} iterations, {} handles)", iterations, handles);
+    }
+}
+
+pub(crate) fn take_injected_accept_error(lst: &MioListener) -> Option<io::Error> {
+    if !in_thread() {
+        return None;
+    }
+    let fd = match lst {
+        MioListener::Tcp(l) => l.as_raw_fd(),
+        MioListener::Uds(l) => l.as_raw_fd(),
+    };
+    INJECTED.with(|i| {
+        let mut list = i.borrow_mut();
+        let pos = list.iter().position(|(f, _, _)| *f == fd)?;
+        let (_, kind, os) = list.remove(pos);
+        Some(match os {
+            Some(code) => io::Error::from_raw_os_error(code),
+            None => io::Error::new(kind, "injected accept error"),
+        })
+    })
+}
+
+pub(crate) fn store_accept(accept: AcceptBox) {
+    ACCEPT.with(|a| *a.borrow_mut() = Some(accept));
+}
+
+pub(crate) fn store_worker(idx: usize, local: LocalSet, shared: Rc<RefCell<Option<ServerWorker>>>) {
+    WORKERS.with(|w| {
+        w.borrow_mut().push(WorkerSlot {
+            idx,
+            local: Some(local),
+            shared,
+        })
+    });
+}
+
+/// Called by the server task right before it joins the accept thread: runs the accept loop to
+/// its exit on this thread (the `Stop` interest has been queued before).
+pub(crate) fn before_accept_join() {
+    if !in_thread() {
+        return;
+    }
+    let mut steps = 0;
+    while !accept_exited() && accept_present() && steps < 64 {
+        accept_step();
+        steps += 1;
+    }
+    if let Some(obs) = observer() {
+        obs.accept_join(accept_exited());
+    }
+}
+
+pub(crate) fn availability_words(avail: &Availability) -> [u128; 4] {
+    avail.verif_words()
+}
+
+// ---- driver API --------------------------------------------------------------------------
+
+#[derive(Debug, Clone, PartialEq, Eq)]
+pub struct AcceptView {
+    pub next: usize,
+    /// worker indices of the handles, in the order the accept loop holds them
+    pub handles: Vec<usize>,
+    /// (worker idx, raw counter value) per handle
+    pub counters: Vec<(usize, usize)>,
+    pub avail_words: [u128; 4],
+    pub paused: bool,
+    pub timeout: Option<Duration>,
+    /// per listener: time left until its back-off deadline
+    pub socket_deadlines: Vec<Option<Duration>>,
+    pub epoll_fd: RawFd,
+    pub listener_fds: Vec<RawFd>,
+    pub queue: Vec<String>,
+}
+
+#[derive(Debug, Clone, PartialEq, Eq)]
+pub struct WorkerView {
+    pub state: &'static str,
+    pub shutdown_tick_in: Option<Duration>,
+    pub shutdown_elapsed: Option<Duration>,
+    pub services: Vec<String>,
+    pub counter_raw: usize,
+    pub queued: usize,
+}
+
+pub fn accept_present() -> bool {
+    ACCEPT.with(|a| a.borrow().is_some())
+}
+
+pub fn accept_exited() -> bool {
+    EXITED.with(|c| c.get())
+}
+
+/// Runs one iteration of the real accept loop with a zero poll timeout. Panics of the loop
+/// propagate (the `Accept` is lost then, as it is when the accept thread dies).
+pub fn accept_step() {
+    let mut accept = ACCEPT
+        .with(|a| a.borrow_mut().take())
+        .expect("accept loop is not present (not started, mid-step, or dead)");
+    accept.step();
+    if accept_exited() {
+        drop(accept);
+    } else {
+        ACCEPT.with(|a| *a.borrow_mut() = Some(accept));
+    }
+}
+
+pub fn accept_view() -> Option<AcceptView> {
+    ACCEPT.with(|a| a.borrow().as_ref().map(|b| b.view()))
+}
+
+/// Arms a one-shot error for the next `accept` on the listener with this fd.
+pub fn inject_accept_error(listener_fd: RawFd, kind: io::ErrorKind, raw_os_error: Option<i32>) {
+    INJECTED.with(|i| i.borrow_mut().push((listener_fd, kind, raw_os_error)));
+}
+
+pub fn injected_pending() -> usize {
+    INJECTED.with(|i| i.borrow().len())
+}
+
+/// Number of worker slots created so far on this thread (a restarted worker gets a new slot).
+pub fn worker_slots() -> usize {
+    WORKERS.with(|w| w.borrow().len())
+}
+
+pub fn worker_idx(slot: usize) -> usize {
+    WORKERS.with(|w| w.borrow()[slot].idx)
+}
+
+/// Takes the `LocalSet` of a slot out for polling; `None` if it is out already or was dropped.
+pub fn take_worker_local(slot: usize) -> Option<LocalSet> {
+    WORKERS.with(|w| w.borrow_mut()[slot].local.take())
+}
+
+pub fn put_worker_local(slot: usize, local: LocalSet) {
+    WORKERS.with(|w| w.borrow_mut()[slot].local = Some(local));
+}
+
+pub fn worker_local_present(slot: usize) -> bool {
+    WORKERS.with(|w| w.borrow()[slot].local.is_some())
+}
+
+/// State of the `ServerWorker` future of a slot; `None` once it has completed or died.
+pub fn worker_view(slot: usize) -> Option<WorkerView> {
+    let shared = WORKERS.with(|w| w.borrow()[slot].shared.clone());
+    crate::worker::verif_worker::view(&shared)
+}
+
+/// The real availability bit set, for differential checking.
+#[derive(Debug, Default)]
+pub struct AvailabilityProbe(Availability);
+
+impl AvailabilityProbe {
+    pub fn available(&self) -> bool {
+        self.0.available()
+    }
+    pub fn get_available(&self, idx: usize) -> bool {
+        self.0.get_available(idx)
+    }
+    pub fn set_available(&mut self, idx: usize, avail: bool) {
+        self.0.set_available(idx, avail)
+    }
+    pub fn words(&self) -> [u128; 4] {
+        self.0.verif_words()
+    }
+}
